@@ -298,8 +298,14 @@ class JsonHistoryGC(threading.Thread):
                     hist = lj.load()
                     lj.close()
                     hist["locked"] = False
-                    with open(f, "w", newline="\n", encoding="utf-8") as fp:
+                    # Atomic write (temp file + os.replace), as in the flusher:
+                    # a crash must not leave a truncated history file.
+                    fd, tmpname = tempfile.mkstemp(
+                        dir=os.path.dirname(f), suffix=".json.tmp"
+                    )
+                    with os.fdopen(fd, "w", newline="\n", encoding="utf-8") as fp:
                         xlj.ljdump(hist, fp, sort_keys=True)
+                    os.replace(tmpname, f)
                     lj = xlj.LazyJSON(f, reopen=False)
                 if only_unlocked and lj.get("locked", False):
                     continue
